@@ -32,7 +32,9 @@ DESCRIPTION = {
         "seeded random histories of 1-6 abstract statements over a 3-4 table universe: rw(read set, at most one write) incl. "
         "self-loops, drop(t), single- and multi-pair rename; biased toward drop/rename after wiring, re-creation after drop; each "
         "history is applied prefix by prefix at holder level (public add_* API + SQLLineageHolder.of) and, for a subset, rendered to "
-        "real SQL and run through LineageRunner with the statement tap feeding the model; the implementation must match some allowed "
+        "real SQL and run through LineageRunner with the statement tap feeding the model (histories without drop/rename also with column-bearing "
+        "renderings over 4-5 tables - unqualified columns from joins, explicit column lists, stray qualifiers spelled like another table of the "
+        "script - with and without a metadata provider); the implementation must match some allowed "
         "state of the partial reference model after every operation; histories without drop/rename are additionally delivered "
         "permuted and with duplicates. Distinct = distinct operation history; non-trivial iff it contains a drop or rename after "
         "wiring, a self-loop, a re-creation after drop, or a reorder/duplicate delivery check."
